@@ -325,7 +325,7 @@ def random_symbols(rng, w, budget, stats, lit_bias=0.3, long_bias=False):
             else:
                 b = rng.getrandbits(8) if rng.random() < 0.7 else rng.choice((0, 0xFF, 0x41))
             w.literal(b)
-            stats["lit" if w.state < 7 and False else "literal"] = stats.get("literal", 0) + 1
+            stats["literal"] = stats.get("literal", 0) + 1
             done += 1
             continue
         r = rng.random()
@@ -334,7 +334,7 @@ def random_symbols(rng, w, budget, stats, lit_bias=0.3, long_bias=False):
             stats["shortrep"] = stats.get("shortrep", 0) + 1
             done += 1
             continue
-        length = pick_len(rng, left) if not long_bias else min(left, rng.choice((273, 273, 200, 18, 2)))
+        length = pick_len(rng, left) if (not long_bias or left < 2) else min(left, rng.choice((273, 273, 200, 18, 2)))
         if length is None:
             if rng.random() < 0.5:
                 w.short_rep()
